@@ -62,9 +62,28 @@ def stream_cases(ctx, n_seq, per):
         for ln in (0, 1, 2, 16777215, 16777216, 16777217, 2 ** 31 - 1, 2 ** 31, 2 ** 32 - 1):
             tail = bytes(rng.randrange(256) for _ in range(rng.choice([0, 1, 5, 40])))
             raw.append({"mode": "raw", "wire": (bytes([ty]) + ln.to_bytes(4, "big") + tail).hex(), "cuts": rng.choice([[], [1] * 50])})
+    # valid gzip members with tiny / empty inflated output on every type class (boundary of "after decompression")
+    import gzip as _gz
+    for ty in (0x50, 0x51, 0x41, 0x60, 0x62, 0x43):
+        for inner in (b"", b" ", b"{}", b"null", b"{", b"[]"):
+            z = _gz.compress(inner, mtime=0)
+            tail = bytes([0x20, 0, 0, 0, 1, 0x41])
+            raw.append({"mode": "raw", "wire": (bytes([ty]) + len(z).to_bytes(4, "big") + z + tail).hex(), "cuts": rng.choice([[], [1] * 80, [7] * 20])})
     for c in raw:
         c["mode"] = "stream"
     return raw
+
+
+def retain_cases(rng, reps):
+    """the same pre-auth packet many times on ONE unauthenticated connection: retained heap must not grow per packet"""
+    out = []
+    for ct in (72, 73, 74, 85, 86, 87, 20, 50, 102, 110, 120, 121, 90, 13, 255):
+        out.append({"mode": "retain", "ty": 0x10, "payload": "", "reps": reps,
+                    "cmd": {"CommandType": ct, "CommandId": "r", "Token": "", "SenderId": "", "ReceiverId": "", "CommandBody": "{}"}})
+    out.append({"mode": "retain", "ty": 0x20, "payload": b'{"tunnel_id":"t","mapping_id":"m"}'.hex(), "reps": reps})
+    out.append({"mode": "retain", "ty": 0x01, "payload": b'{"client_id":12345}'.hex(), "reps": reps})
+    out.append({"mode": "retain", "ty": 0x03, "payload": "", "reps": reps})
+    return out
 
 
 def run(ctx, only_cases=None):
@@ -90,12 +109,14 @@ def run(ctx, only_cases=None):
     # the same hostile streams end to end through the adapter's real per-connection read loop
     loops = [dict(c, mode="loop") for c in streams[:: (2 if thorough else 5)]] if only_cases is None else [c for c in only_cases if c["mode"] == "loop"]
     l_out = vlib.run_harness(binary, loops, timeout=1500) if loops else []
+    retain = retain_cases(ctx.rng, 6000 if thorough else 1500) if only_cases is None else [c for c in only_cases if c["mode"] == "retain"]
+    r_out = vlib.run_harness(binary, retain, timeout=1500) if retain else []
     s_out = vlib.run_harness(binary, streams, timeout=1500) if streams else []
     b_out = vlib.run_harness(binary, bombs, timeout=1500) if bombs else []
     d_out = vlib.run_harness(binary, disp, timeout=1500) if disp else []
 
     nfail = 0
-    for c, o in list(zip(streams, s_out)) + list(zip(bombs, b_out)) + list(zip(disp, d_out)) + list(zip(loops, l_out)):
+    for c, o in list(zip(streams, s_out)) + list(zip(bombs, b_out)) + list(zip(disp, d_out)) + list(zip(loops, l_out)) + list(zip(retain, r_out)):
         bad = None
         if not o["prop_ok"]:
             bad = o["prop_msg"]
@@ -108,18 +129,19 @@ def run(ctx, only_cases=None):
         if bad:
             nfail += 1
             if nfail <= 3:
-                kind = "panic" if "panic" in bad else ("spin" if "within" in bad else ("alloc" if ("allocated" in bad or "exceeds" in bad or "inflating" in bad) else "dispatch"))
+                kind = "retained" if "retained" in bad else "panic" if "panic" in bad else ("spin" if "within" in bad else ("alloc" if ("allocated" in bad or "exceeds" in bad or "inflating" in bad) else "dispatch"))
                 ctx.violation("%s:%s" % (kind, c["mode"]), "real code: %s" % bad, {"case": c, "observed": {k: v for k, v in o.items() if k != "wire"}})
     # model vs implementation on the stream cases
     mism = []
     terms = []
-    for c, o in zip(streams, s_out):
-        c1 = {"mode": "raw", "cuts": c["cuts"]}
-        terms.append(c01.case_value(c1, o))
+    model_idx = [i for i, o in enumerate(s_out) if o.get("obs")]   # a run that panicked / timed out has no observation to diff
+    for i in model_idx:
+        c1 = {"mode": "raw", "cuts": streams[i]["cuts"]}
+        terms.append(c01.case_value(c1, s_out[i]))
     try:
         res = vlib.model_eval("C05", terms)
-        mism = [i for i, ok in enumerate(res) if not ok]
-        small = [i for i in range(len(terms)) if len(s_out[i]["wire"]) < 300][:: max(1, len(terms) // 30)][:30]
+        mism = [model_idx[i] for i, ok in enumerate(res) if not ok]
+        small = [i for i in range(len(terms)) if len(s_out[model_idx[i]]["wire"]) < 300][:: max(1, len(terms) // 30)][:30]
         vm_bad = sorted(small[k] for k in vlib.vm_crosscheck("C05", [terms[i] for i in small]))
         if vm_bad != sorted(i for i in small if not res[i]):
             raise vlib.Broken("extracted runner and vm_compute disagree on the C05 model", str(vm_bad))
@@ -140,7 +162,8 @@ def run(ctx, only_cases=None):
     nontriv = {o["wire"] + str(c["cuts"][:8]) for c, o in zip(streams, s_out) if len(o["obs"]) >= 2 or (o["obs"] and o["obs"][-1]["n"] >= 5)}
     nontriv |= {json.dumps(c, sort_keys=True) for c, o in zip(disp, d_out) if o["dispatched"]}
     ctx.coverage.update({
-        "evaluations": len(streams) + len(bombs) + len(disp) + len(loops), "read_loop_runs": len(loops), "distinct_nontrivial": len(nontriv),
+        "evaluations": len(streams) + len(bombs) + len(disp) + len(loops), "read_loop_runs": len(loops), "retention_runs": len(retain),
+        "max_retained_bytes_per_packet": max([o["retained_per_op"] for o in r_out] + [0]), "distinct_nontrivial": len(nontriv),
         "rule": "hostile streams = mutations/truncations/adversarial length fields of valid packet streams (VERIF_SEED, one PRNG) through real "
                 "ReadPacket under watchdog + TotalAlloc measurement, every decoded packet then through real SessionManager.HandlePacket on a fresh "
                 "connection of a fully wired fixture inside recover(); gzip bombs built in the harness; dispatch cases = all 256 type bytes x "
